@@ -188,11 +188,11 @@ CLAIMED.update({
         'Found and fixed: escape via symlink loop + outside link.',
    design='§7 C18'),
  'C19': dict(
-   technique='Coq proof (fuel induction over an abstract short-reading reader) of copy_bytes exactness and termination + AST expression translation + end-to-end shell oracle with shrinking',
+   technique='Coq proof (fuel induction over an abstract short-reading reader) of copy_bytes exactness and termination + Coq proofs over a tree model of the shell commands (exactness, round trip, frame) + AST expression translation + differential check against the real tool + end-to-end shell oracle with shrinking',
    text='Theorems: for every content, position, range, reader (short reads allowed) and loop variant copy_bytes returns within |content|+2 iterations having written exactly content[start:min(stop,|content|)]; '
-        'the single-read fast path yields a non-empty prefix on a short-reading raw source; step != 1 rejected. Shell commands (cp/-r, mv, rm/-r/-f, rmdir, mkdir/-p, touch, cat over host, img:N/ and img:/ paths, '
+        'the single-read fast path yields a non-empty prefix on a short-reading raw source; step != 1 rejected. Tree half (Shell/Model.v: host and partition trees, names folded on partitions, every branch of do_cp/do_mv/do_rm/do_rmdir/do_mkdir/do_touch/do_cat incl. where a multi-source command stops): cp copies exactly the bytes / the merged tree, cp -r in then out returns the original tree, mv moves (same fs = rename, across = copy and remove), rm/rmdir remove exactly what was named, EVERY command whatever its outcome changes only paths at or below those it names, cat = concatenation; tied to sh.py by replaying seeded and adversarial command streams through the real nobodd.sh.main and the extracted model (status class, cat output, all three trees after every command). Shell commands (cp/-r, mv, rm/-r/-f, rmdir, mkdir/-p, touch, cat over host, img:N/ and img:/ paths, '
         'FAT12/16/32, two partitions, sizes around 64 KiB, ENOSPC) are checked end to end by an oracle: expected in-memory trees vs fresh read-back after every command, exit status, extracted Coq structural check (sampled).',
-   note='Proof level for byte copying; the shell half is oracle/correspondence only (PARTIAL). Assumes full reads unless at EOF for the fast path (true for buffered readers). '
+   note='Proof level for byte copying and for the command semantics over trees; that the IMAGE is structurally consistent after a failing command is oracle-level (the tree model has no clusters), and 8.3 aliases, ENOSPC, timestamps and symlinks are not in the tree model (PARTIAL there). Assumes full reads unless at EOF for the fast path (true for buffered readers). '
         'Found and fixed: divergence past end of source, two FatFileSystem instances per partition (mv lost the file), cp onto itself.',
    design='§7 C19'),
 })
